@@ -176,6 +176,9 @@ class PrefixExpression(Expression):
         super().__init__(token)
 
     def __str__(self) -> str:
+        if isinstance(self.right, (ComparisonExpression, PrefixExpression)):
+            # `!a == 1` and `!!a` are not valid; keep the parentheses.
+            return f"{self.operator}({self.right})"
         return f"{self.operator}{self.right}"
 
     def __eq__(self, other: object) -> bool:
